@@ -12,6 +12,10 @@ import OmbottModel.Model.CookiesLib
     cookie dec <pk> <data> <secret>              → <result> calls=<list>
     cookie set <pk> <name>:<value>:<secret> …    → out=… hdrs=<Set-Cookie values> cookie=<client header>
     cookie get <pk> <header> <name> <secret>     → <result> calls=<list>
+    cookie setvia <pk> <path> <op> … -- <op> …   cookies set on the live response (and, after `--`, on the
+                                                 raised object), emitted via direct|copy|copy2|redirect|raised|errpage
+    cookie req <pk> <header|~> <rop> …           one request object: g<i>:<name>:<secret> | s<i>:<key>:<value> |
+                                                 d<i>:<key> | c (request 1 := copy of request 0) → answers of the gets
 -/
 namespace Drv.Cookies
 open Py Drv Ombott.Cookies
@@ -57,6 +61,28 @@ def runSets (L : Lib) : Jar → List (Str × CVal × Bytes) → Jar × List Stri
     | .ok jar' => let (j, o) := runSets L jar' r; (j, "ok" :: o)
     | .error e => let (j, o) := runSets L jar r; (j, e.name :: o)
 
+def parsePath : String → Option EmitPath
+  | "direct" => some .direct | "copy" => some .copy | "copy2" => some .copy2
+  | "redirect" => some .redirect | "raised" => some .raised | "errpage" => some .errpage
+  | _ => none
+
+def parseReqOp (t : String) : Option ReqOp :=
+  match t.splitOn ":" with
+  | ["c"] => some .copy
+  | [g, a, b] =>
+    match g.toList with
+    | ['g', i] => some (.get (i.toNat - 48) (unhexStr a) (unhexBytes b))
+    | ['s', i] => some (.set (i.toNat - 48) (unhexStr a) (unhexStr b))
+    | _ => none
+  | [d, a] =>
+    match d.toList with
+    | ['d', i] => some (.del (i.toNat - 48) (unhexStr a))
+    | _ => none
+  | _ => none
+
+def splitAt2 (l : List String) : List String × List String :=
+  (l.takeWhile (· != "--"), (l.dropWhile (· != "--")).drop 1)
+
 def handle : List String → Option String
   | ["lscmp", a, b] => some (show01 (lscmp (unhexBytes a) (unhexBytes b)))
   | ["md5", a] => some (hexBytes (Crypto.md5 (unhexBytes a)))
@@ -83,6 +109,24 @@ def handle : List String → Option String
     let (jar, outs) := runSets L [] (← ops.mapM parseSet)
     let hdrs := emit jar
     pure s!"out={",".intercalate outs} hdrs={hexStrList hdrs} cookie={hexStr (clientHeader hdrs)}"
+  | "setvia" :: pk :: path :: ops => do
+    let L := lib (← parsePk pk)
+    let p ← parsePath path
+    let (a, b) := splitAt2 ops
+    let (jar, outs) := runSets L [] (← a.mapM parseSet)
+    let (rjar, routs) := runSets L [] (← b.mapM parseSet)
+    let allOuts := outs ++ routs
+    pure (match emitVia p jar rjar with
+      | .error e => s!"out={",".intercalate allOuts} via={e.name}"
+      | .ok j =>
+        let hdrs := emit j
+        s!"out={",".intercalate allOuts} via=ok hdrs={hexStrList hdrs} cookie={hexStr (clientHeader hdrs)}")
+  | "req" :: pk :: h :: ops => do
+    let L := lib (← parsePk pk)
+    let r0 : Req := { hdr := optStr h, cache := none }
+    let res := runReq L r0 r0 (← ops.mapM parseReqOp)
+    pure (if res.isEmpty then "~" else
+      " | ".intercalate (res.map fun (r, calls) => s!"{showRes r} calls={hexBytesList calls}"))
   | ["get", pk, h, n, s] => do
     let L := lib (← parsePk pk)
     let (r, calls) := getCookie L (unhexStr h) (unhexStr n) (unhexBytes s)
